@@ -4,6 +4,13 @@ From Coquelicot Require Import Coquelicot.
 From OAS Require Import Scalar Rops Sums Deriv Dual DualProofs Drag DragDeriv Stress StressDeriv StressProofs Transfer TransferDeriv Loads LoadsDeriv Functionals FunctionalsDeriv Aero AeroDeriv PG PGDeriv Beam BeamTables BeamDeriv Geom GeomDeriv Misc MiscDeriv MultiSec MultiSecDeriv.
 Open Scope R_scope.
 
+Theorem C01_LiftDrag_lift :
+  forall (np : nat) (sym : bool) (A : R -> R) (F : R -> nat -> nat -> R) (t0 : R) (a : dual R)
+    (f : nat -> nat -> dual R),
+  DR A t0 a -> DR2 F t0 f -> DR (fun t : R => lift np sym (A t) (F t)) t0 (lift np sym a f).
+Proof. exact lift_DR. Qed.
+Print Assumptions C01_LiftDrag_lift.
+
 Theorem C01_LiftDrag_drag :
   forall (np : nat) (sym : bool) (A B : R -> R) (F : R -> nat -> nat -> R) (t0 : R) 
     (a b : dual R) (f : nat -> nat -> dual R),
@@ -107,10 +114,4 @@ Theorem C01_LocalStiff :
     (local_stiff e g a j' iy iz l i k).
 Proof. exact local_stiff_DR. Qed.
 Print Assumptions C01_LocalStiff.
-
-Theorem C01_LocalStiffPermuted :
-  forall (Kl : R -> nat -> nat -> R) (t0 : R) (kl : nat -> nat -> dual R) (j k : nat),
-  DR2 Kl t0 kl -> DR (fun t : R => permuted (Kl t) j k) t0 (permuted kl j k).
-Proof. exact permuted_DR. Qed.
-Print Assumptions C01_LocalStiffPermuted.
 
